@@ -158,7 +158,7 @@ class TransactLoop(LoopContract):
 class Rebalance(Contract):
     relpath, qual = REL, "Broker.rebalance"
     props = ("C01", "C03", "C06", "C07", "C09", "C13")
-    shards = [[a, b, c] for a in (0, 1) for b in (0, 1) for c in (0, 1)]     # last_accrual x measure x fractional
+    shards = [[a, b, c, d] for a in (0, 1) for b in (0, 1) for c in (0, 1) for d in (0, 1)]     # last_accrual x measure x fractional x first body decision
 
     def pre_state(self, I):
         has_last = I.choice(2) == 1
@@ -330,6 +330,12 @@ class Rebalance(Contract):
         if ok_ctx:
             pq = h[post.oid]["nr_contracts"]
             out.append(PW("record_positions", lambda k: z3.Implies(vn.in_qty(k), h[pq.oid]["get"](k).v == vn.qty(k))))
+        if S.weights_mode and S.fractional and not c.callsite:
+            # arithmetic step of target_reached, proved without context: (w*E/p/m)*m*p == w*E
+            ks = I.skolem()
+            w_, p_, m_ = S.aget(ks).v, acq(S.v, ks, S.aget(ks).v), mult(ks)
+            I.use_lemma(self.qual + "::lemma::target_size_cancels",
+                        z3.Implies(z3.And(p_ != 0, m_ != 0), (w_ * E1 / p_ / m_) * m_ * p_ == w_ * E1))
         if S.weights_mode and S.fractional:
             # C03: position x multiplier x execution-side quote == w x NLV measured just before trading
             out.append(PW("target_reached", lambda k: z3.Implies(
